@@ -856,6 +856,49 @@ def check_boolean_cases(model, rep, oracle):
            'where NumPy selects the positions at which the mask is true', statement='bool-mask')
 
 
+def check_build_time_division(model, rep):
+    """R07.12: axis lengths may be zero (NumPy has empty arrays).  Wherever a NumPy implementation divides at build time (`%`, `//`,
+    builtins.divmod) by a length taken from the operand's or the requested shape, a test that excludes zero - an early exit under
+    `not <operand>.size`, or under `not <divisor>` - must come first; otherwise an empty operand raises ZeroDivisionError where NumPy
+    returns an empty array (or its own ValueError)."""
+    m, regs = registrations(model)
+    n = 0
+    for fn, names in regs:
+        pos = [a.arg for a in fn.args.args]
+        sites = []
+        for x in ast.walk(fn):
+            if isinstance(x, ast.BinOp) and isinstance(x.op, (ast.Mod, ast.FloorDiv)):
+                sites.append((x, x.right))
+            elif isinstance(x, ast.Call) and src(x.func) in ('builtins.divmod', 'divmod') and len(x.args) == 2:
+                sites.append((x, x.args[1]))
+        for node, div in sites:
+            dn = {y.id for y in ast.walk(div) if isinstance(y, ast.Name)}
+            lengthy = any(isinstance(y, ast.Attribute) and y.attr in ('shape', 'size') for y in ast.walk(div)) or bool(dn - {'numpy', 'builtins'})
+            if isinstance(div, ast.Constant) or not lengthy:
+                continue
+            n += 1
+            guards = []
+            for g in ast.walk(fn):
+                if not (isinstance(g, ast.If) and g.lineno < node.lineno and any(isinstance(b, (ast.Raise, ast.Return)) for b in g.body)):
+                    continue
+                t = g.test
+                zero = None
+                if isinstance(t, ast.UnaryOp) and isinstance(t.op, ast.Not):
+                    zero = t.operand
+                elif isinstance(t, ast.Compare) and len(t.ops) == 1 and isinstance(t.ops[0], ast.Eq) and src(t.comparators[0]) == '0':
+                    zero = t.left
+                if zero is None:
+                    continue
+                if (isinstance(zero, ast.Name) and (zero.id in dn or any(isinstance(a, ast.Assign) and src(a.targets[0]) == zero.id and src(a.value) == src(div) for a in ast.walk(fn)))) or (isinstance(zero, ast.Attribute) and zero.attr == 'size' and isinstance(zero.value, ast.Name) and zero.value.id in pos):
+                    guards.append(g)
+            ok = bool(guards)
+            rep.ob('R07.12', f'function:__implementations__.{fn.name}', f'{m.relpath}:{node.lineno}', ok, f'`{src(node)[:50]}`: a zero divisor is excluded by `{src(guards[0].test)}` first' if ok else
+                   f'`{src(node)[:60]}` divides by a length that is zero for an empty array and no earlier test excludes that: {names[0]} of an empty function array raises ZeroDivisionError where NumPy returns an empty array or raises ValueError',
+                   statement=f'nonzero-divisor {src(node)[:40]}')
+    if n < 3:
+        raise AnalysisError(f'R07.12: only {n} build-time divisions by lengths found (reshape expected)')
+
+
 def _ord(fn, node):
     calls = [c for c in ast.walk(fn) if isinstance(c, ast.Call) and src(c.func) == '_Wrapper']
     calls.sort(key=lambda c: (c.lineno, c.col_offset))
@@ -893,6 +936,7 @@ def run(model, rep, tier):
     rep.rule('R07.9', 'shape preconditions asserted by a wrapped evaluable node are tested (raise) by the wrapping NumPy implementation')
     rep.rule('R07.10', 'index arrays of one subscript are handled jointly, as NumPy does')
     rep.rule('R07.11', 'boolean operands: absolute is the identity, contractions stay boolean, a boolean subscript is a mask')
+    rep.rule('R07.12', 'build-time divisions by axis lengths are preceded by a test that excludes zero (empty arrays)')
     rep.rule('R07.8', 'every _Transpose is constructed from normalised, permutation-checked axes')
     rep.trusted_base.append('oracles/numpy_api.json (NumPy documented semantics)')
     check_chains(model, rep, oracle)
@@ -904,6 +948,7 @@ def run(model, rep, tier):
     check_wrapped_kinds(model, rep)
     check_getitem(model, rep)
     check_boolean_cases(model, rep, oracle)
+    check_build_time_division(model, rep)
     check_namespace_table(model, rep, oracle)
     rep.require('R07.1', 55)
     rep.require('R07.2', 40)
